@@ -106,7 +106,7 @@ func c08Match(got vlib.Cmd, want c08Entry) string {
 
 func engineNotebook(ctx *Ctx) {
 	r := vlib.NewRand(ctx.Seed, ctx.Shard, "notebook")
-	nHist := ctx.N(96, 1600)
+	nHist := ctx.N(96, 4800)
 	markerSeq := 0
 	for hI := 0; hI < nHist; hI++ {
 		base := filepath.Join(ctx.Scratch, fmt.Sprintf("nb%d", hI))
@@ -358,7 +358,7 @@ func engineNotebookFaults(ctx *Ctx) {
 		return
 	}
 	r := vlib.NewRand(ctx.Seed, ctx.Shard, "notebook-faults")
-	n := ctx.N(96, 960)
+	n := ctx.N(96, 2400)
 	os.Chmod(ctx.Scratch, 0o755)
 	for i := 0; i < n; i++ {
 		base := filepath.Join(ctx.Scratch, fmt.Sprintf("nf%d", i))
